@@ -30,6 +30,7 @@ type feedOpts struct {
 	boundaryQ            int  // quick number of boundary base documents (default 4)
 	boundaries           bool // long documents corrupted at positions round 64, 128, ..., 65536 (chunked scanners)
 	alignment            bool // runs of every token class at every length 0..40 x special byte x tail length (word-at-a-time scanners)
+	tokenSweepQ          int  // number of generated base documents for the token-level sweep (0 = skip); 14 fixed templates are always included
 	amplify              bool // one small element (every single-gap whitespace variant of 6 templates, and drawn ones) repeated > 10000 times in one container
 	strRuns              bool // strings made of N directly adjacent escapes of one kind (N in 0..140 and round powers of two) + a closer, as value and key
 	numShapes            int  // number tokens over a grid of (integer, fraction, exponent) digit counts; the value is the number of contexts (1..4), 0 = skip
@@ -257,6 +258,38 @@ func (e *env) feed(o feedOpts, f inputFn) {
 				}
 			}
 		}
+	}
+
+	// 2b*. token-level sweep: every drop of 1..3 consecutive tokens, every duplication and every
+	// neighbour swap, on compact and spaced templates and generated documents (a member without
+	// its key, two values in a row, a key where a value belongs: no single byte edit makes these)
+	if o.tokenSweepQ > 0 {
+		templates := []string{`{"a":{},"b":{}}`, `{"a":{"x":1},"b":{"y":2},"c":[]}`, `[{"a":{}},{"b":[]}]`, `{"k":{"a":{},"b":{},"c":{}}}`, `[[1],[2],{"a":[3]}]`,
+			`{"a":[],"b":[],"c":1}`, `[1,"s",true,null,{"k":"v"}]`, `{"a":1,"b":"x","c":null,"d":[true,false]}`, `{ "a" : { } , "b" : { } }`, `[ { "a" : [ ] } , { } ]`,
+			`{"a":{"b":{"c":{}}},"d":{}}`, `[[],[],[[],[]]]`, `{"x":-1.5e3,"y":"\u00e9\n","z":[0]}`, `[{},{},{}]`}
+		e.rapidStage("tokensweep", "sweep", len(templates)+cfg.N(o.tokenSweepQ, o.tokenSweepQ*20), func(rt *rapid.T) {
+			var doc []byte
+			if k := rapid.IntRange(0, 2*len(templates)-1).Draw(rt, "template"); k < len(templates) {
+				doc = []byte(templates[k])
+			} else {
+				doc = gen.Doc(rt, gen.AnyProfile(rt))
+				if len(doc) > 160 {
+					doc = gen.Doc(rt, gen.Tiny)
+				}
+			}
+			var ferr error
+			var bad []byte
+			gen.TokenSweep(doc, func(b []byte) bool {
+				if err := call("tokensweep", b); err != nil {
+					ferr, bad = err, b
+					return false
+				}
+				return true
+			})
+			if ferr != nil {
+				failRapid(rt, r, caseOf(cfg.Prop, "tokensweep", bad, ferr), ferr)
+			}
+		})
 	}
 
 	// 2b+. amplification: a small element repeated more than 10 000 (thorough: 70 000) times in
